@@ -45,6 +45,7 @@ Init ==
                                          d \in MonthDates, s \in {0, 37230}, m \in MonthCounts}
     \/ /\ "group" \in Kinds  /\ c \in {[kind |-> "group", a |-> a, b |-> b, k |-> k] :
                                          a \in AllDurs, b \in AllDurs, k \in {N(2), 0, 3}}
+    \/ /\ "nat" \in Kinds    /\ c \in {[kind |-> "nat", a |-> a] : a \in AllDurs \cup {NAT}}
     \/ /\ "trunc" \in Kinds  /\ c \in {[kind |-> "trunc", t |-> t] : t \in (Grid \ NsEdge) \cup {<<d, 37230, 123456789>> : d \in MonthDates}}
     \/ /\ "tod" \in Kinds    /\ c \in {[kind |-> "tod", h |-> h, mi |-> mi, s |-> s, sub |-> sub] :
                                          h \in {0, 1, 12, 23}, mi \in {0, 30, 59}, s \in {0, 59}, sub \in {0, 1, 123456789, 999999999}}
@@ -58,6 +59,9 @@ Laws ==
     /\ c.kind = "diff"   => DiffAddsBack(c.a, c.b) /\ TDiff(NAT, c.b) = NAT /\ TDiff(c.a, NAT) = NAT
     /\ c.kind = "group"  => GroupAxioms(c.a, c.b, DScale(c.a, c.k)) /\ ScaleDistributes(c.a, c.b, c.k)
                             /\ DAdd(NAT, c.a) = NAT /\ DNeg(NAT) = NAT /\ DScale(NAT, c.k) = NAT
+                            \* NaT absorbs EVERY duration, also one with a calendar part
+                            /\ TAdd(NAT, c.a) = NAT /\ TSub(NAT, c.a) = NAT
+    /\ c.kind = "nat"    => TAdd(NAT, c.a) = NAT /\ TSub(NAT, c.a) = NAT /\ DAdd(NAT, c.a) = NAT /\ DAdd(c.a, NAT) = NAT
     /\ c.kind = "trunc"  => /\ \A q \in {1, 15, 60, 3600, 21600, 86400} : TruncIsGreatestMultiple(c.t, q)
                             /\ \A dm \in {1, 2, 3, 4, 6, 12} : MonthTruncIsPeriodStart(c.t, dm)
     /\ c.kind = "tod"    => HmsRoundTrip(c.h, c.mi, c.s, c.sub)
@@ -73,6 +77,7 @@ EmitTime ==
                                  civil |-> CivilFromDays(AddMonths(c.t, c.m)[1])]
         [] c.kind = "group"  -> [op |-> "group", a |-> c.a, b |-> c.b, k |-> c.k,
                                  sum |-> DAdd(c.a, c.b), dif |-> DSub(c.a, c.b), neg |-> DNeg(c.a), scaled |-> DScale(c.a, c.k)]
+        [] c.kind = "nat"    -> [op |-> "nat", a |-> c.a]
         [] c.kind = "trunc"  -> [op |-> "trunc", t |-> c.t,
                                  secs |-> [q \in {1, 15, 60, 3600, 21600, 86400} |-> TruncSecs(c.t, q)],
                                  days |-> [k \in {2, 7} |-> TruncDays(c.t, k)],
